@@ -585,42 +585,86 @@ func ruleRerunOnlyWhenNeeded(c *Check, rule string) {
 			return false
 		}
 	}
-	errCalls := map[ssa.CallInstruction]int{}
-	for _, f := range []*ssa.Function{c.P.Func("output", "Registry", "LoadOutputs"), c.P.Func("caching", "TargetResultCache", "Load")} {
-		if f == nil {
-			continue
+	// allowedIn: the edges of fn that justify running a dependency again (failed lookup/restore of fn's own,
+	// lifted, sites; availability flag false)
+	allowedIn := func(fn *ssa.Function) func(*ssa.BasicBlock, int) bool {
+		errCalls := map[ssa.CallInstruction]int{}
+		for _, f := range []*ssa.Function{c.P.Func("output", "Registry", "LoadOutputs"), c.P.Func("caching", "TargetResultCache", "Load")} {
+			if f == nil {
+				continue
+			}
+			sites, _ := liftedSites(c, fn, statTo(f), 0)
+			for _, s := range sites {
+				errCalls[s] = engine.ErrResultIndex(s.Common().Signature())
+			}
 		}
-		sites, _ := liftedSites(c, ldo, statTo(f), 0)
-		for _, s := range sites {
-			errCalls[s] = engine.ErrResultIndex(s.Common().Signature())
-		}
-	}
-	allowed := engine.CutEdgesWhere(func(a engine.Atom) bool {
-		switch a.Op {
-		case "nonnil":
-			for _, o := range engine.Origins(a.V) {
-				if call, i := engine.CallOf(o); call != nil {
-					if idx, ok := errCalls[call]; ok && idx == i {
-						return true
+		return engine.CutEdgesWhere(func(a engine.Atom) bool {
+			switch a.Op {
+			case "nonnil":
+				for _, o := range engine.Origins(a.V) {
+					if call, i := engine.CallOf(o); call != nil {
+						if idx, ok := errCalls[call]; ok && idx == i {
+							return true
+						}
 					}
 				}
+			case "false":
+				return availabilityValue(a.V, 0)
 			}
-		case "false":
-			return availabilityValue(a.V, 0)
+			return false
+		})
+	}
+	// ungated: the sites of fn that lead to the executing method and are reachable without an allowed edge. An
+	// ungated static call of a first-party helper (the extracted body of the dependency loop, say) is judged
+	// inside that helper: the path is ungated only when it is ungated at every level.
+	var ungated func(fn *ssa.Function, depth int, seen map[*ssa.Function]bool) (n int, bad []ssa.CallInstruction)
+	ungated = func(fn *ssa.Function, depth int, seen map[*ssa.Function]bool) (int, []ssa.CallInstruction) {
+		allowed := allowedIn(fn)
+		n := 0
+		var bad []ssa.CallInstruction
+		for _, r := range sitesReaching(c, fn, fnSet(ex.ExecMethod)) {
+			n++
+			reach, _ := engine.PathExists(fn, nil, engine.IsInstr(r), engine.PathQuery{CutEdge: allowed, Shallow: true})
+			if !reach {
+				continue
+			}
+			if call, ok := r.(*ssa.Call); ok && depth < 2 {
+				h := call.Call.StaticCallee()
+				if h != nil && len(h.Blocks) > 0 && h != ldo && h != ex.ExecMethod && !seen[h] && engine.IsFirstParty(pkgPathOf(h)) && h.Parent() == nil {
+					seen[h] = true
+					_, inner := ungated(h, depth+1, seen)
+					bad = append(bad, inner...)
+					continue
+				}
+			}
+			bad = append(bad, r)
 		}
-		return false
-	})
-	n := 0
-	for _, r := range sitesReaching(c, ldo, fnSet(ex.ExecMethod)) {
-		n++
-		reach, _ := engine.PathExists(ldo, nil, engine.IsInstr(r), engine.PathQuery{CutEdge: allowed, Shallow: true})
+		return n, bad
+	}
+	n, bad := ungated(ldo, 0, map[*ssa.Function]bool{ldo: true})
+	isBad := map[ssa.CallInstruction]bool{}
+	for _, b := range bad {
+		isBad[b] = true
+	}
+	report := func(r ssa.CallInstruction) {
 		what := "re-run"
 		for _, cal := range c.G.CalleesOf(r) {
 			if cal == ldo {
 				what = "recursive-load"
 			}
 		}
-		c.Require(!reach, rule, what+"-only-when-needed/"+fname, "reached only after a failed lookup/restore or for a dependency that is not yet materialised", "a dependency can be run again although its outputs were restored and it was already executed or loaded in this build (for instance because it carries the no-cache tag): one build executes it once in the walker and once more for every dependant — and once per path on diamond-shaped graphs of such targets", c.P.InstrPos(r))
+		c.Require(!isBad[r], rule, what+"-only-when-needed/"+fname, "reached only after a failed lookup/restore or for a dependency that is not yet materialised", "a dependency can be run again although its outputs were restored and it was already executed or loaded in this build (for instance because it carries the no-cache tag): one build executes it once in the walker and once more for every dependant — and once per path on diamond-shaped graphs of such targets", c.P.InstrPos(r))
+	}
+	inLdo := map[ssa.CallInstruction]bool{}
+	for _, r := range sitesReaching(c, ldo, fnSet(ex.ExecMethod)) {
+		inLdo[r] = true
+		if !isBad[r] {
+			// discharged here or inside the helper it calls
+			report(r)
+		}
+	}
+	for _, b := range bad {
+		report(b)
 	}
 	if n == 0 {
 		c.Unknown(rule, "re-run-only-when-needed/"+fname, "no call in the dependency loader reaches the executing method", "-")
